@@ -19,7 +19,8 @@ func c20(c *eng.Ctx, r *eng.Report) {
 		"R20.2 AddMiner/AddStake debit exactly the stake they record (same uint64 through the same conversion) and only after the id and the account are found free in BOTH registries; " +
 		"R20.3 GetRefundStake returns exactly the amount it subtracts from the record, removes the record only on the below-minimum edge of the matching miner type and updates it otherwise, and its callers schedule the returned amount unchanged; " +
 		"R20.4 writer, by-id reader, iterator and remover derive the stake/account/status keys with the same Sha256 nesting depth (1/2/3); " +
-		"R20.5 a BeforeExecute implementation mutates state only through ProcessFee. " +
+		"R20.5 a BeforeExecute implementation mutates state only through ProcessFee; " +
+		"R20.6 a record is rewritten read-modify-write — UpdateMiner(m, db, false), which writes stake, account and status together, is given the record just read from the registry — and RemoveMiner erases the four slots only on the `left == 0` edge. " +
 		"Not decided: the sums themselves; equality of the three lookup results as values."
 	r.Assume = []string{"miner records live in the storage of ValidatorDBAddress/ProposerDBAddress only"}
 	c20Layers(c, r)
@@ -28,6 +29,7 @@ func c20(c *eng.Ctx, r *eng.Report) {
 	c20Refund(c, r)
 	c20Keys(c, r)
 	c20Before(c, r)
+	c20Record(c, r)
 }
 
 func c20Layers(c *eng.Ctx, r *eng.Report) {
@@ -465,4 +467,82 @@ func c20Before(c *eng.Ctx, r *eng.Report) {
 		}
 		r.Check(hit == nil, rule, "before-execute:"+eng.FuncName(fn), c.Pos(fn.Pos()), "only ProcessFee mutates state", msg)
 	}
+}
+
+// c20Record: a miner record is rewritten from what the registry holds and
+// erased only once no stake is left.
+func c20Record(c *eng.Ctx, r *eng.Report) {
+	const rule = "R20.6"
+	r.Min(rule, 5)
+	upd := c.Func("service", "(*MinerManager).UpdateMiner")
+	rem := c.Func("service", "(*MinerManager).RemoveMiner")
+	if !r.Anchor(upd != nil && rem != nil, rule, "MinerManager.UpdateMiner / RemoveMiner") {
+		return
+	}
+	// (a) UpdateMiner(m, db, false) writes stake, account and status together, so m must be the record just
+	//     read from the registry (read-modify-write); only registration (isNew=true) may pass a new record
+	for i, s := range c.Callers(upd) {
+		if c.IsTestFunc(s.Fn) {
+			continue
+		}
+		args := s.Common().Args
+		isNew, _ := eng.ConstInt(args[len(args)-1])
+		if k, ok := args[len(args)-1].(*ssa.Const); ok && k.Value != nil && k.Value.ExactString() == "true" {
+			isNew = 1
+		}
+		key := fmt.Sprintf("UpdateMiner@%s#%d", eng.FuncName(s.Fn), i)
+		if isNew == 1 {
+			r.Pass(rule, key, c.Pos(s.Pos()), "registration: writes the full record")
+			continue
+		}
+		m := args[1]
+		fromRegistry := false
+		seen := map[ssa.Value]bool{}
+		var walk func(v ssa.Value, d int)
+		walk = func(v ssa.Value, d int) {
+			if v == nil || d > 5 || seen[v] {
+				return
+			}
+			seen[v] = true
+			switch x := v.(type) {
+			case *ssa.Call:
+				n := eng.CallName(&x.Call)
+				if strings.Contains(n, "MinerManager).GetMiner") {
+					fromRegistry = true
+				}
+			case *ssa.Phi:
+				for _, e := range x.Edges {
+					walk(e, d+1)
+				}
+			case *ssa.Extract:
+				walk(x.Tuple, d+1)
+			case *ssa.UnOp:
+				walk(x.X, d+1)
+			}
+		}
+		walk(m, 0)
+		r.Check(fromRegistry, rule, key, c.Pos(s.Pos()), "the record passed is the one read from the registry (GetMiner/GetMinerById), modified in place", eng.FuncName(s.Fn)+" calls UpdateMiner(…, false) with "+eng.Desc(m)+", which is not the record read from the registry: UpdateMiner rewrites stake, account and status together, so every member the new value does not carry (e.g. an aborted status) is reset — lookup by id and the active set stop agreeing with what was registered")
+	}
+	// (b) RemoveMiner erases the record (writes the empty value) only when no stake is left
+	n := 0
+	for _, s := range eng.Sites(rem) {
+		if !strings.HasSuffix(s.Name(), "AccountDB).SetData") {
+			continue
+		}
+		v := s.Common().Args[len(s.Common().Args)-1]
+		if !strings.Contains(eng.Desc(v), "emptyValue") {
+			continue
+		}
+		n++
+		zero := false
+		for _, cd := range eng.CondsAt(s.Instr) {
+			if m, ok := cd.Cmp(); ok && isParamNamed(m.X, "left") {
+				if k, isK := eng.ConstInt(m.Y); isK && k == 0 && m.Op == token.EQL {
+					zero = true
+				}
+			}
+		}
+		r.Check(zero, rule, fmt.Sprintf("RemoveMiner:erase#%d", n), c.Pos(s.Pos()), "erased only on the left == 0 edge", "RemoveMiner can erase a slot of the miner record although stake is left (no `left == 0` condition holds at this write): the leftover stake is neither locked, scheduled for refund nor liquid, and the miner vanishes from every lookup")
+	}
+	r.Check(n >= 4, rule, "RemoveMiner:erase-sites", c.Pos(rem.Pos()), fmt.Sprintf("%d erase writes", n), fmt.Sprintf("RemoveMiner erases only %d of the 4 slots of a record", n))
 }
